@@ -106,7 +106,7 @@ def apply(data, f):
         if not toks:
             return data
         m = toks[min(f["tok"], len(toks) - 1)]
-        new = f["token"].encode()
+        new = f["token"].encode("latin-1") if f.get("latin1") else f["token"].encode()
         if f.get("keep_width") and len(new) < m.end() - m.start():
             new = new.rjust(m.end() - m.start())
         ls[i] = ls[i][: m.start()] + new + ls[i][m.end():]
